@@ -249,6 +249,9 @@ func Render(p *Prog, mod string) map[string]string {
 				if strings.Contains(d.Extra, "time.") {
 					r.imports["time"] = true
 				}
+				if strings.Contains(d.Extra, "json.") {
+					r.imports["encoding/json"] = true
+				}
 				n++
 			}
 		}
@@ -463,6 +466,8 @@ func Random(id int, rng *rand.Rand, o Opts) *Prog {
 		add(Decl{K: "struct", Name: "Token", File: "extra", Fields: []Field{{Name: "Text", Type: Basic("string")}}, Methods: []Method{{Name: "isThing"}}})
 		add(Decl{K: "struct", Name: "AfterUnion", Fields: []Field{{Name: "First", Type: Ref("", "Shape")}, {Name: "Then", Type: Ref("", "Layers")}}})
 		if o.TagOptions {
+			// a member without any field the targets see, which still has a JSON encoding of its own
+			add(Decl{K: "struct", Name: "Legacy", Fields: []Field{{Name: "Code", Type: Basic("string"), Tag: "gomacro:\"ignore\""}}, Methods: []Method{{Name: "isShape"}}})
 			// a struct with a union field (so that gounions wraps it) whose siblings carry json tag options
 			add(Decl{K: "struct", Name: "WithOpts", Fields: []Field{{Name: "Sh", Type: Ref("", "Shape")},
 				{Name: "Count", Type: Basic("int"), Tag: `json:"count,string"`}, {Name: "Tags", Type: Slice(Basic("string")), Tag: `json:"tags,omitempty"`},
